@@ -385,6 +385,24 @@ class BitmapHist : public Engine {
                         vals.push_back(v);
                     }
                     if (pending_perturb == 0) pair_pending = big, pair_obj = o;
+                } else if (r.chance(1, 4)) {
+                    // a batch that is already sorted (bulk paths test for that), with or without repeated
+                    // values, above / around / below what the object holds
+                    n = r.chance(1, 2) ? r.range(8, 40) : r.range(2, 300);
+                    uint32_t hi = 0;
+                    for (size_t q = 65536; q-- > 0;)
+                        if (g.m[o][q]) {
+                            hi = (uint32_t)q;
+                            break;
+                        }
+                    uint32_t cur = r.chance(1, 2) ? hi + (uint32_t)r.below(3) : gen_val(g);
+                    bool dups = r.chance(2, 3);
+                    for (size_t j = 0; j < n; j++) {
+                        vals.push_back(cur & 0xffff);
+                        uint32_t step = dups && r.chance(1, 4) ? 0 : 1 + (uint32_t)r.below(r.chance(1, 2) ? 2 : 60);
+                        if (cur + step > 65535) step = 0;
+                        cur += step;
+                    }
                 } else if (r.chance(1, 3)) { // strided sequence (possibly descending)
                     uint32_t start = gen_val(g), stride = (uint32_t)r.range(1, 40);
                     bool desc = r.chance(1, 3);
